@@ -457,6 +457,24 @@ func genRelay(g *genCtx, r *rand.Rand, emit func(Case)) {
 	if g.thorough() {
 		nr = 150
 	}
+	// images followed by octets that are not part of them (the next frame's beginning, padding): a decoder that takes such
+	// input has taken a PDU it can encode again
+	for _, tn := range typeNames {
+		img, err := build(tn, defaultAssign(r, tn, true)).IEncode()
+		if err != nil {
+			continue
+		}
+		for _, k := range []int{1, 11, 12, 40} {
+			junk := nulFree(r, k)
+			b0 := append(append([]byte{}, img...), junk...)
+			relay(tn, b0)
+			if tn != "cmpp.SubPduDeliveryContent" {
+				b1 := append([]byte{}, b0...)
+				setPrefix(b1)
+				relay(tn, b1)
+			}
+		}
+	}
 	// the far end of the scope: the largest destination counts with the longest bodies (whatever a decoder accepts
 	// must be encodable again)
 	for _, tn := range typeNames {
@@ -623,6 +641,13 @@ func runWire(c Case, tr *Tracer) {
 		if err == nil {
 			fresh := ctors[tn]()
 			var derr error
+			if caseInt(c, "t")%2 == 0 && len(bytes) > 6 {
+				// the frame before this one was cut short and refused (what a decoder keeps from that is its own business)
+				guard(func() { _ = ctors[tn]().IDecode(append([]byte{}, bytes[:len(bytes)/2]...)) })
+				if tn != "cmpp.SubPduDeliveryContent" {
+					dispatchName(tn[:6], bytes[:len(bytes)-1])
+				}
+			}
 			img := append([]byte{}, bytes...)
 			pan, hung := guardT(func() { derr = fresh.IDecode(img) }, tn+".IDecode")
 			if pan {
